@@ -1,8 +1,8 @@
 (* C04 model: which database state survives close / reopen / checkpoint and which does not.
    Definitions only, no proofs.  Transcribed from (as the code IS, including wrong behaviour):
 
-     src/database/database.rs   open_with_recovery (next_row_id := 1, wal_enabled := false, fresh
-                                dirty tracker), SharedDatabase::checkpoint (rotate segment, REPLAY the
+     src/database/database.rs   open_with_recovery (next_row_id := largest stored row key + 1 [restore_next_row_id],
+                                wal_enabled := false, fresh dirty tracker), SharedDatabase::checkpoint (rotate segment, REPLAY the
                                 closed segments onto the table files, remove them), Drop for
                                 SharedDatabase (same replay unless close() was called), flush_wal_if_autocommit
      src/database/lifecycle.rs  checkpoint() (flush dirty pages into the WAL, then truncate it),
@@ -95,20 +95,23 @@ Definition auto_limit : Z := 9223372036854775807.
    constraint checks), so it equals i_max whether or not the statement completes. *)
 Record iacc := mkI { i_rows : list row; i_pk : list (Z * Z); i_next : Z; i_cur : Z; i_max : Z; i_cnt : Z }.
 
-(* one row of the VALUES list; None = the statement fails here (what was done so far stays) *)
+(* AUTO_INCREMENT part of one row: the key to store, auto_increment_current, auto_increment_max,
+   and whether the statement fails here (negative / out-of-range key, counter overflow) *)
+Definition auto_part (kind cur mx : Z) (a0 : option Z) : option Z * Z * Z * bool :=
+  if kind =? 2 then
+    match a0 with
+    | None => if cur + 1 <=? auto_limit
+              then (Some (cur + 1), cur + 1, Z.max mx (cur + 1), false)
+              else (a0, cur, mx, true)                                  (* auto_increment overflow *)
+    | Some x => if (x <? 0) || (auto_limit <? x) then (a0, cur, mx, true)
+                else (a0, Z.max cur x, Z.max mx x, false)
+    end
+  else (a0, cur, mx, false).
+
+(* one row of the VALUES list; false = the statement fails here (what was done so far stays) *)
 Definition ins_row (kind : Z) (c : iacc) (v : option Z * Z) : iacc * bool :=
-  let '(a0, b) := v in
-  (* AUTO_INCREMENT *)
-  let '(a, cur, mx, neg) :=
-    if kind =? 2 then
-      match a0 with
-      | None => if i_cur c + 1 <=? auto_limit
-                then (Some (i_cur c + 1), i_cur c + 1, Z.max (i_max c) (i_cur c + 1), false)
-                else (a0, i_cur c, i_max c, true)                       (* auto_increment overflow *)
-      | Some x => if (x <? 0) || (auto_limit <? x) then (a0, i_cur c, i_max c, true)
-                  else (a0, Z.max (i_cur c) x, Z.max (i_max c) x, false)
-      end
-    else (a0, i_cur c, i_max c, false) in
+  let '(a, cur, mx, neg) := auto_part kind (i_cur c) (i_max c) (fst v) in
+  let b := snd v in
   let c1 := mkI (i_rows c) (i_pk c) (i_next c) cur mx (i_cnt c) in
   if neg then (c1, false)
   else
@@ -253,6 +256,15 @@ Definition replay_tab (tab : Z -> option ltbl) (ph : Z -> phys) : Z -> option lt
            end.
 Definition drop_imgs (ph : Z -> phys) : Z -> phys := fun t => mkP None (p_dirty (ph t)).
 
+(* Database::open (restore_next_row_id): the counter continues after the largest row key that is
+   physically stored in any table of the catalog - tombstones are stored rows, DELETE removes
+   nothing from the leaf; an empty table contributes 0; a dropped table has no file any more *)
+Definition max_rid (rs : list row) : Z := fold_right (fun r m => Z.max (r_id r) m) 0 rs.
+Definition tab_max (tab : Z -> option ltbl) (t : Z) : Z :=
+  match tab t with Some tb => max_rid (t_rows tb) | None => 0 end.
+Definition restore_next (tab : Z -> option ltbl) : Z :=
+  1 + fold_right (fun t m => Z.max (tab_max tab t) m) 0 slots.
+
 Definition step (s : st) (o : op) : st * obs :=
   match o with
   | CkptApi =>           (* flush what is dirty, truncate the WAL: nothing is replayed *)
@@ -260,10 +272,11 @@ Definition step (s : st) (o : op) : st * obs :=
   | CkptPragma =>
       if s_walobj s then (mkS (replay_tab (s_tab s) (s_ph s)) (drop_imgs (s_ph s)) (s_next s) (s_wal s) true, OOk 0)
       else (s, OOk 0)
-  | ReopenClose =>       (* close() = checkpoint(); Drop skips; open: next_row_id := 1; the session setting of the WAL is restored *)
-      (mkS (s_tab s) (fun _ => no_phys) 1 (s_wal s) (s_wal s), OOk 0)
-  | ReopenDrop =>        (* Drop replays the segments; open as above *)
-      (mkS (if s_walobj s then replay_tab (s_tab s) (s_ph s) else s_tab s) (fun _ => no_phys) 1 (s_wal s) (s_wal s), OOk 0)
+  | ReopenClose =>       (* close() = checkpoint(); Drop skips; open: next_row_id restored; the session setting of the WAL is restored *)
+      (mkS (s_tab s) (fun _ => no_phys) (restore_next (s_tab s)) (s_wal s) (s_wal s), OOk 0)
+  | ReopenDrop =>        (* Drop replays the segments; open as above (it sees the replayed files) *)
+      let tab' := if s_walobj s then replay_tab (s_tab s) (s_ph s) else s_tab s in
+      (mkS tab' (fun _ => no_phys) (restore_next tab') (s_wal s) (s_wal s), OOk 0)
   | AutoCkpt => (s, OWeird)
   | _ =>                 (* a statement; PRAGMA wal=ON creates the Wal object (ensure_wal) *)
       let r := lstep (s_tab s) (s_next s) (s_wal s) o in
@@ -288,15 +301,7 @@ Definition op_in_lang (o : op) : bool :=
   | Bulk _ _ _ | Trunc _ | CIdx _ | DIdx _ | Find _ _ | TxBegin | TxCommit | TxRollback | AutoCkpt => false
   | _ => true
   end.
-(* ... and a table name is not created again after it was dropped (that path is black-box only) *)
-Fixpoint no_recreate (dropped : list Z) (h : list op) : bool :=
-  match h with
-  | [] => true
-  | DropT t :: r => no_recreate (t :: dropped) r
-  | Create t _ :: r => negb (existsb (Z.eqb t) dropped) && no_recreate dropped r
-  | _ :: r => no_recreate dropped r
-  end.
-Definition in_lang (h : list op) : bool := forallb op_in_lang h && no_recreate [] h.
+Definition in_lang (h : list op) : bool := forallb op_in_lang h.
 
 (* ------------------------------------------------------------------ equality of observations *)
 Fixpoint list_eqb {A} (eq : A -> A -> bool) (x y : list A) : bool :=
@@ -347,30 +352,18 @@ Fixpoint oracle (h : list op) (oa ob : list obs) : bool :=
       end
   end.
 
-(* ------------------------------------------------------------------ the recorded finding classes *)
-(* Three scanners over the history together with what its statements returned in run A (an
-   INSERT that failed after its first row leaves rows behind that were not appended to the WAL).
-   class 1: an INSERT after a close/drop + open that follows an INSERT     (next_row_id restarts at 1)
+(* ------------------------------------------------------------------ the recorded finding class *)
+(* A scanner over the history together with what its statements returned in run A (an INSERT
+   that failed after its first row leaves rows behind that were not appended to the WAL).
    class 2: a replaying checkpoint (PRAGMA wal_checkpoint, automatic checkpoint at COMMIT, drop
             without close) while some table may have a page image in the WAL that is older than
             the page: changed with the WAL off / inside a transaction / by TRUNCATE / by a
-            statement that failed half-way, after an image of it was logged
-   class 3: a table name is dropped and created again, in a history that reopens the database
-            (FileManager keeps the mapping of the unlinked file)  -- black-box only *)
+            statement that failed half-way, after an image of it was logged.
+   (Historical: class 1 = INSERT after a reopen failed because next_row_id restarted at 1, fixed
+   in /repo 60cb117; class 3 = a table dropped and re-created was served from the unlinked file,
+   fixed in /repo affacca.  Both paths are now part of the modelled language.) *)
 Definition is_err (x : obs) : bool := match x with OOk _ => false | _ => true end.
 Definition ok_pos (x : obs) : bool := match x with OOk n => 0 <? n | _ => false end.
-
-(* ---- class 1 *)
-Record k1 := mkK1 { k_ins : bool;      (* an INSERT was seen *)
-                    k_ro : bool;       (* ... and a reopen after it *)
-                    k_c1 : bool }.
-Definition k1_init : k1 := mkK1 false false false.
-Definition k1_step (k : k1) (o : op) : k1 :=
-  match o with
-  | Ins _ _ | Bulk _ _ _ => mkK1 true (k_ro k) (k_c1 k || k_ro k)
-  | ReopenClose | ReopenDrop => mkK1 (k_ins k) (k_ro k || k_ins k) (k_c1 k)
-  | _ => k
-  end.
 
 (* ---- class 2 *)
 Record k2 := mkK2 {
@@ -425,27 +418,13 @@ Definition k2_step (k : k2) (o : op) (x : obs) : k2 :=
   | _ => k
   end.
 
-(* ---- class 3 *)
-Record k3 := mkK3 { k_dropped : Z -> bool; k_recreated : bool; k_reopened : bool }.
-Definition k3_init : k3 := mkK3 (fun _ => false) false false.
-Definition k3_step (k : k3) (o : op) : k3 :=
-  match o with
-  | DropT t => mkK3 (upd (k_dropped k) t true) (k_recreated k) (k_reopened k)
-  | Create t _ => mkK3 (k_dropped k) (k_recreated k || k_dropped k t) (k_reopened k)
-  | ReopenClose | ReopenDrop => mkK3 (k_dropped k) (k_recreated k) true
-  | _ => k
-  end.
-
 (* oa: the observations of run A, one per op *)
-Fixpoint kscan (a : k1) (b : k2) (c : k3) (h : list op) (oa : list obs) : k1 * k2 * k3 :=
+Fixpoint kscan (b : k2) (h : list op) (oa : list obs) : k2 :=
   match h, oa with
-  | o :: t, x :: oa' => kscan (k1_step a o) (k2_step b o x) (k3_step c o) t oa'
-  | _, _ => (a, b, c)
+  | o :: t, x :: oa' => kscan (k2_step b o x) t oa'
+  | _, _ => b
   end.
 
-Definition kclass (k : k1 * k2 * k3) : Z :=
-  let '(a, b, c) := k in
-  if k_c2 b then 2 else if k_recreated c && k_reopened c then 3 else if k_c1 a then 1 else 0.
+Definition kclass (b : k2) : Z := if k_c2 b then 2 else 0.
 
-Definition known_class_of (wal : bool) (h : list op) (oa : list obs) : Z :=
-  kclass (kscan k1_init (k2_init wal) k3_init h oa).
+Definition known_class_of (wal : bool) (h : list op) (oa : list obs) : Z := kclass (kscan (k2_init wal) h oa).
